@@ -1,18 +1,34 @@
 package main
 
 import (
+	"fmt"
+	"go/ast"
+	"go/token"
 	"go/types"
+	"sort"
+	"strings"
 )
 
-// c06Contract: declared preconditions of dynamically dispatched entry points, over generic
-// atoms (P<i> = i-th parameter). These are what the relay code establishes before the call
-// (checked at the call sites that are in scope) and what every implementation may assume.
+func init() {
+	register(&PropCheck{ID: "C06", Pkgs: []string{"./..."}, Run: runC06})
+}
+
+// c06Contract: declared preconditions of dynamically dispatched entry points and of the one
+// helper whose guard is not linear, over generic atoms (P<i> = i-th parameter). They are what
+// callers establish (checked at every call site that is in scope) and what every
+// implementation may assume.
 func c06Contract(fc *FuncCtx) []LF {
 	if fc.Obj == nil {
 		return nil
 	}
 	sig, ok := fc.Obj.Type().(*types.Signature)
-	if !ok || sig.Recv() == nil {
+	if !ok {
+		return nil
+	}
+	if sig.Recv() == nil {
+		if fc.Obj.Name() == "intToUint16" && fc.Obj.Pkg().Path() == mp("ss2022") {
+			return []LF{lfAtom("P0"), lfConst(65535).plus(lfAtom("P0"), -1)}
+		}
 		return nil
 	}
 	switch fc.Obj.Name() {
@@ -27,4 +43,795 @@ func c06Contract(fc *FuncCtx) []LF {
 		}
 	}
 	return nil
+}
+
+// c06BoundsPkgs: packages whose functions are put through the bounds prover.
+var c06BoundsPkgs = []string{"socks5", "ss2022", "direct", "httpproxy", "ssnone", "dns", "probe"}
+
+// c06Boundary: functions of those packages that are not required to be fully proved, by name,
+// each with the reason. They are still analysed: their calls into fully proved functions must
+// satisfy the callee's precondition. Everything not listed here must be proved completely.
+var c06Boundary = map[string]string{}
+
+// c06BoundaryCallReviewed: calls from a boundary function into a fully proved reader whose
+// precondition depends on the boundary function's buffer invariant, keyed "caller -> callee".
+var c06BoundaryCallReviewed = map[string]string{
+	"ss2022.(*ShadowStreamConn).Read -> ss2022.(*ShadowStreamConn).read":                        "the buffer is getReadBuf(): allocated with slices.Grow(nil, streamReadMinBufferSize) on first use and only ever resliced; too small a buffer is a designed panic on the first read of every connection, not an input-dependent one",
+	"ss2022.(*ShadowStreamConn).WriteTo -> ss2022.(*ShadowStreamConn).read":                     "same buffer as Read: getReadBuf()",
+	"ss2022.(*ShadowStreamConn).writeToShadowStreamConn -> ss2022.(*ShadowStreamConn).read":     "the buffer is the peer connection's writeBuf[2+tagSize:], allocated by getWriteBuf() with streamWriteBufferSize = 2+tagSize+streamReadMinBufferSize",
+	"ss2022.(*ShadowStreamClientConn).initRead -> ss2022.ParseTCPResponseHeader":                "plaintext is the opened response header of exactly 1+8+len(PSK)+2 bytes (bufferLen arithmetic above the call) and requestSaltLen == len(PSK) is fixed when the request salt is generated in DialStream; the relation between the two fields is not expressible as a per-field bound",
+}
+
+func c06BoundaryReason(name string) (string, bool) {
+	if r, ok := c06Boundary[name]; ok {
+		return r, true
+	}
+	// closures belong to their enclosing function
+	if i := strings.Index(name, "$lit@"); i > 0 {
+		if r, ok := c06Boundary[name[:i]]; ok {
+			return r, true
+		}
+	}
+	return "", false
+}
+
+func init() {
+	out := "output side: offsets and sizes derive from the caller-provided headroom, the payload being sent or the target address, not from received bytes; headroom sufficiency is decided by C05"
+	stream := "stream buffer management: the lazily allocated read/write buffers carry the invariant 'non-nil implies capacity >= streamReadMinBufferSize / streamWriteBufferSize', which is not expressible as a per-field bound; the length-driven slicing itself is in the fully proved (*ShadowStreamConn).read"
+	client := "client side towards a configured upstream: sizes come from exported session-info fields (MaxPacketSize, PackerHeadroom) of the configured client"
+	swf := "ring index is masked with ringBlockIndexMask == len(ring)-1, a relation between two fields fixed at construction; the formulas are decided by C04-R5"
+	for _, n := range []string{
+		"ss2022.(*ShadowPacketClientPacker).PackInPlace", "ss2022.(*ShadowPacketServerPacker).PackInPlace",
+		"direct.(*Socks5PacketClientPacker).PackInPlace", "direct.(Socks5PacketServerPacker).PackInPlace",
+		"direct.(*ShadowsocksNonePacketClientPacker).PackInPlace", "direct.(ShadowsocksNonePacketServerPacker).PackInPlace",
+		"ss2022.(*StreamClient).DialStream", "ssnone.(*StreamClient).DialStream",
+		"ss2022.PutTCPRequestVariableLengthHeader", "ss2022.PutUDPClientMessageHeader", "ss2022.PutUDPServerMessageHeader",
+		"socks5.WriteAddrFromConnAddr", "socks5.AppendAddrFromConnAddr", "socks5.LengthOfAddrFromConnAddr", "socks5.clientDoRequest",
+		"ss2022.(*ShadowStreamServerConn).initWrite", "ss2022.(*ShadowStreamServerConn).prepareInitWriteBufs", "ss2022.(*ShadowStreamServerConn).Write",
+		"ss2022.(*ShadowStreamServerConn).readFromGeneric", "ss2022.(*ShadowStreamConn).ReadFrom", "ss2022.ReplyWithGibberish",
+	} {
+		c06Boundary[n] = out
+	}
+	for _, n := range []string{
+		"ss2022.(*ShadowStreamClientConn).initRead", "ss2022.(*ShadowStreamClientConn).Read", "ss2022.(*ShadowStreamClientConn).writeToGeneric",
+		"ss2022.(*ShadowStreamConn).Read", "ss2022.(*ShadowStreamConn).WriteTo", "ss2022.(*ShadowStreamConn).writeToShadowStreamConn",
+		"ss2022.(*StreamServer).HandleStream",
+	} {
+		c06Boundary[n] = stream
+	}
+	for _, n := range []string{
+		"probe.(UDPProbe).Probe", "dns.(*Resolver).sendQueriesUDP", "dns.(*Resolver).sendQueries", "dns.(*Resolver).sendQueriesTCP",
+	} {
+		c06Boundary[n] = client
+	}
+	for _, n := range []string{
+		"ss2022.(*SlidingWindowFilter).Add", "ss2022.(*SlidingWindowFilter).MustAdd", "ss2022.(*SlidingWindowFilter).IsOk", "ss2022.(*SlidingWindowFilter).Reset",
+	} {
+		c06Boundary[n] = swf
+	}
+	c06Boundary["httpproxy.(TLSProxyServer).HandleStream"] = "tlsConnState.PeerCertificates[0] under RequireAndVerifyClientCert: crypto/tls guarantees a verified peer certificate after the handshake"
+	c06Boundary["socks5.(serverPendingConn).Proceed"] = "reply buffer handed over by serverHandleRequest, which panics by design below 3+MaxAddrLen bytes (see C06-R1 lifted precondition)"
+	c06Boundary["socks5.(serverPendingConn).Abort"] = c06Boundary["socks5.(serverPendingConn).Proceed"]
+}
+
+func runC06(p *Prog, r *Report) {
+	r.Explanation = "Structural necessary conditions of 'no bytes from the network can crash the process', in two parts. (1) Every construct that panics by design is accounted for: each explicit panic in the module belongs to a known panicking API whose call sites are all discharged (predicate dominance for conn.Addr accessors, non-zero guards for port sets, linear preconditions proved at the callers, constant arguments, construction-time facts), and every single-value type assertion is a reviewed one. (2) A modular bounds prover covers every index, slice, slice-to-array conversion, make length, unsafe extent and length-demanding callee (encoding/binary, callees' own preconditions) in the wire-facing packages: for each operation the goal inequalities are refuted by Fourier–Motzkin from the conditions that dominate it, definitions of locals, type ranges, callee postconditions, inferred struct-field invariants and a small table of standard-library facts; what cannot be proved locally but speaks only about parameters becomes a precondition that is re-proved at every call site. Every function of those packages must be proved completely unless it is on the reviewed boundary list (by function, with the reason); boundary functions must still establish the preconditions of the proved functions they call."
+	r.NotDecided = []string{"the remaining index/slice operations inside boundary functions (output side, stream buffer management, sliding window ring, DNS/probe clients) and in packages outside the wire-facing list (service relay loops, conn control messages)", "nil dereferences, map writes to nil maps, integer division by zero, allocation failure, stack exhaustion", "third-party code (dnsmessage, net/http, bart) and the standard library", "fatal data races (see the lockset rules of C03/C08/C12/C17)"}
+	r.Assumptions = []string{"go/types, checker CFG", "standard-library facts listed in stdEnsures/stdRequires (io.ReadFull, Read, ReadMsgUDPAddrPort, copy, append, slices.Grow, encoding/binary, cipher.AEAD Open/Seal/Overhead with a 16-byte tag)", "interface contract of UnpackInPlace (0 <= packetStart, 0 <= packetLen, packetStart+packetLen <= len(b)) at the relay call sites in package service"}
+	c06R1(p, r)
+	c06R2(p, r)
+	c06R3(p, r)
+	c06R4(p, r)
+}
+
+// ---------------------------------------------------------------- R1 designed panics
+
+type c06PanicSite struct {
+	fn   string // enclosing function name (fc.Name)
+	rule string
+}
+
+// c06PanicTable: every function that contains an explicit panic, and how it is discharged.
+var c06PanicTable = map[string]string{
+	"conn.(Addr).IP":                       "addr:IsIP",
+	"conn.(Addr).IPPort":                   "addr:IsIP",
+	"conn.(Addr).Domain":                   "addr:IsDomain",
+	"conn.(Addr).Host":                     "addr:IsValid",
+	"conn.(Addr).ResolveIP":                "addr:IsValid",
+	"conn.(Addr).ResolveIPPort":            "addr:IsValid",
+	"conn.MustAddrFromDomainPort":          "const-args",
+	"portset.panicOnZeroPort":              "portset",
+	"portset.(*PortSet).AddRange":          "portset",
+	"bitset.(BitSet).checkIndex":           "bitset",
+	"router.(*RouteConfig).Route":          "config-time",
+	"router.(*Router).match":               "default-route",
+	"service.(*ClientConfig).tcpNetwork":   "config-time",
+	"ss2022.intToUint16":                   "bounds-contract",
+	"ss2022.(*ShadowStreamConn).read":      "bounds-requires",
+	"socks5.AppendAddrFromConnAddr":        "domain-length",
+	"socks5.LengthOfAddrFromConnAddr":      "domain-length",
+	"socks5.clientNegotiateAuthMethod":     "bounds-requires",
+	"socks5.clientDoUsernamePasswordAuth":  "bounds-requires",
+	"socks5.clientDoRequest":               "bounds-requires",
+	"socks5.serverHandleMethodSelection":   "bounds-requires",
+	"socks5.serverHandleUsernamePassword":  "bounds-requires",
+	"socks5.serverHandleRequest":           "bounds-requires",
+}
+
+// c06AddrReviewed: call sites of panicking conn.Addr accessors that are not guarded by a
+// dominating predicate in the same function, keyed by "<enclosing function>:<call>", each with
+// the reason the receiver is known to be of the required kind.
+var c06AddrReviewed = map[string]string{
+	"ss2022.(*UDPClient).NewSession:c.addr.ResolveIPPort(ctx, c.network)":                         "server address of a configured client: service.(*ClientConfig).checkAddresses refuses a UDP-enabled client without a valid address (C18-R4)",
+	"direct.(*ShadowsocksNoneUDPClient).NewSession:c.addr.ResolveIPPort(ctx, c.network)":          "server address of a configured client: validated by checkAddresses (C18-R4)",
+	"direct.(*Socks5UDPClient).newSession:addr.ResolveIPPort(ctx, c.networkIP)":                    "address parsed from the SOCKS5 UDP ASSOCIATE reply on its success edge (socks5.ClientUDPAssociate returns a non-zero Addr or an error)",
+	"direct.(*DirectPacketClientPacker).updateDomainIPCache:targetAddr.Domain()":                   "called from PackInPlace only on the !IsIP() edge with a target address that came out of a server unpacker's successful parse (never the zero Addr)",
+	"direct.(*DirectPacketClientPacker).updateDomainIPCache:targetAddr.ResolveIP(ctx, p.network)": "same as above: non-zero target address",
+	"socks5.AppendAddrFromConnAddr:addr.Domain()":                                                  "after the IsIP() early return; callers pass request/target addresses that were parsed successfully or configured (non-zero)",
+	"socks5.WriteAddrFromConnAddr:addr.Domain()":                                                   "after the IsIP() early return; non-zero target address",
+	"socks5.LengthOfAddrFromConnAddr:addr.Domain()":                                                "after the IsIP() early return; non-zero target address",
+	"router.(DestDomainCriterion).Meet:requestInfo.TargetAddr.Domain()":                            "after the IsIP() early return; TargetAddr of a request is produced by a successful handshake/packet parse or a validated configuration value (never the zero Addr: socks5 parsers, hostHeaderToAddr and conn.ParseAddr return an error instead)",
+	"router.(DestResolvedIPCriterion).Meet:requestInfo.TargetAddr.Domain()":                        "after the IsIP() branch returned; non-zero TargetAddr (see DestDomainCriterion)",
+	"router.(DestDomainExpectedIPCriterion).Meet:requestInfo.TargetAddr.Domain()":                  "after the IsIP() early return; non-zero TargetAddr",
+	"router.(DestResolvedGeoIPCountryCriterion).Meet:requestInfo.TargetAddr.Domain()":              "after the IsIP() branch returned; non-zero TargetAddr",
+	"netio.(*UDPClientSession).AppendPack:destAddr.Domain()":                                       "else branch of IsIP(); destination of a datagram accepted by a server unpacker (non-zero)",
+	"netio.(*UDPClientSession).AppendPack:destAddr.ResolveIP(ctx, s.network)":                      "same: non-zero destination address",
+	"direct.(*DirectPacketServerPackUnpacker).PackInPlace:p.targetAddr.IPPort()":                   "executed only in target-only mode, which service.(*ServerConfig).Initialize builds only with an IP tunnelRemoteAddress (decided by C18-R4; fixed by 2f1e5cc)",
+}
+
+func c06R1(p *Prog, r *Report) {
+	const rule = "C06-R1"
+	r.Rule(rule, "every designed panic is accounted for: each explicit panic(...) in non-test module code sits in a function of the reviewed table of panicking APIs; every call of a panicking conn.Addr accessor is dominated by the true edge of the matching predicate on the same receiver, or is a reviewed site; PortSet.Contains/Add receive a port proved non-zero by a dominating test; every conn.Addr with the domain family is built past the 1..255 length test; panics guarded by a linear condition on parameters are preconditions proved at the callers by the bounds prover (C06-R2); Router.match's panic is unreachable because the route list always ends with the unconditional default route; every single-value type assertion is a reviewed one")
+	// 1. enumerate explicit panics
+	nPanic := 0
+	byFn := map[string]int{}
+	for _, pkg := range p.All {
+		if pkg.Syntax == nil || strings.HasPrefix(relPkg(pkg.PkgPath), "cmd/") || strings.HasSuffix(pkg.PkgPath, "test") {
+			continue
+		}
+		p.AllFuncs(pkg, func(fc *FuncCtx) {
+			for _, ctx := range allCtxs(p, fc) {
+				for _, cs := range ctx.AllCalls() {
+					id, ok := ast.Unparen(cs.Call.Fun).(*ast.Ident)
+					if !ok || id.Name != "panic" {
+						continue
+					}
+					if _, isBuiltin := ctx.Info().Uses[id].(*types.Builtin); !isBuiltin {
+						continue
+					}
+					nPanic++
+					byFn[fc.Name]++
+					kind, known := c06PanicTable[fc.Name]
+					r.Check(known, rule, fc.Name+":panic:"+exprStr(cs.Call.Args[0]), cs.Pos(), "designed panic of a known panicking API ("+kind+")", "an explicit panic in a function that is not in the reviewed table of panicking APIs: nothing shows that input from the network cannot reach it")
+				}
+			}
+		})
+	}
+	r.Count("explicit_panic_sites", nPanic)
+	// 2. conn.Addr accessors
+	nAcc, nLocal := 0, 0
+	for _, pkg := range p.All {
+		if pkg.Syntax == nil || strings.HasPrefix(relPkg(pkg.PkgPath), "cmd/") {
+			continue
+		}
+		if relPkg(pkg.PkgPath) == "conn" {
+			// the accessors themselves
+		}
+		p.AllFuncs(pkg, func(fc *FuncCtx) {
+			for _, ctx := range allCtxs(p, fc) {
+				for _, cs := range ctx.AllCalls() {
+					if cs.Fn == nil || namedTypeName(recvTypeOf(cs.Fn)) != "Addr" || namedTypePkg(recvTypeOf(cs.Fn)) != mp("conn") {
+						continue
+					}
+					if _, need := addrAccessorNeeds[cs.Fn.Name()]; !need {
+						continue
+					}
+					if relPkg(pkg.PkgPath) == "service" {
+						continue // decided by C18-R4 with the same rule
+					}
+					nAcc++
+					key := ctx.Name + ":" + exprStr(cs.Call)
+					if addrGuarded(ctx, cs.Call, cs.V) || c06DomainAfterNotIP(ctx, cs) {
+						nLocal++
+						r.OK(rule, key, cs.Pos(), "dominated by the matching predicate")
+						continue
+					}
+					reason, ok := c06AddrReviewed[key]
+					r.Check(ok, rule, key, cs.Pos(), "reviewed: "+reason, exprStr(cs.Call)+" can panic: no dominating "+strings.Join(addrAccessorNeeds[cs.Fn.Name()], "/")+"() test on this receiver in "+ctx.Name+", and the site is not a reviewed one — a zero or wrong-kind address computed from a request crashes the process")
+				}
+			}
+		})
+	}
+	r.Count("addr_accessor_calls", nAcc)
+	r.Count("addr_accessor_calls_locally_guarded", nLocal)
+	// 3. port sets: Contains / Add with a non-zero port
+	nPS := 0
+	for _, pkg := range p.All {
+		if pkg.Syntax == nil || relPkg(pkg.PkgPath) == "portset" {
+			continue
+		}
+		p.AllFuncs(pkg, func(fc *FuncCtx) {
+			for _, cs := range fc.AllCalls() {
+				if cs.Fn == nil || namedTypeName(recvTypeOf(cs.Fn)) != "PortSet" || namedTypePkg(recvTypeOf(cs.Fn)) != mp("portset") {
+					continue
+				}
+				switch cs.Fn.Name() {
+				case "Contains", "Add":
+				default:
+					continue
+				}
+				nPS++
+				arg := cs.Call.Args[0]
+				ok := false
+				info := fc.Info()
+				for _, cv := range fc.G.V {
+					x, y, op, okc := condParts(cv)
+					if !okc || y == nil || (op != token.NEQ && op != token.EQL && op != token.GTR) {
+						continue
+					}
+					if k, isC := constInt(info, y); !isC || k != 0 {
+						continue
+					}
+					if !samePathOrObj(fc, x, arg) && exprStr(x) != exprStr(arg) {
+						continue
+					}
+					lab := LTrue
+					if op == token.EQL {
+						lab = LFalse
+					}
+					for _, e := range cv.Succs {
+						if e.Label == lab && fc.G.EdgeDominates([]Edge{e}, cs.V) {
+							ok = true
+						}
+					}
+				}
+				if !ok {
+					ok = shortCircuitNonZero(fc.G.V[cs.V].Node, cs.Call, arg)
+				}
+				r.Check(ok, rule, fc.Name+":"+exprStr(cs.Call), cs.Pos(), "port tested non-zero on every path to the call", "PortSet."+cs.Fn.Name()+" panics on port 0 and the argument is not tested against 0 on this path: a request or datagram naming port 0 crashes the process")
+			}
+		})
+	}
+	r.Count("portset_calls", nPS)
+	// 4. domain-family Addr literals past the length test
+	cp := p.Pkg("conn")
+	nLit := 0
+	p.AllFuncs(cp, func(fc *FuncCtx) {
+		info := fc.Info()
+		for _, v := range fc.G.V {
+			if v.Node == nil {
+				continue
+			}
+			inspectNoLit(v.Node, func(n ast.Node) bool {
+				cl, ok := n.(*ast.CompositeLit)
+				if !ok || namedTypeName(info.TypeOf(cl)) != "Addr" {
+					return true
+				}
+				isDomain := false
+				for _, el := range cl.Elts {
+					if kv, ok := el.(*ast.KeyValueExpr); ok && exprStr(kv.Key) == "af" && exprStr(kv.Value) == "addressFamilyDomain" {
+						isDomain = true
+					}
+				}
+				if !isDomain {
+					return true
+				}
+				nLit++
+				ok = false
+				for _, cv := range fc.G.V {
+					x, y, op, okc := condParts(cv)
+					if !okc || y == nil || op != token.GTR {
+						continue
+					}
+					if k, isC := constInt(info, y); !isC || k != 255 || !strings.HasPrefix(exprStr(x), "len(") {
+						continue
+					}
+					for _, e := range cv.Succs {
+						if e.Label == LFalse && fc.G.EdgeDominates([]Edge{e}, v.ID) && strings.Contains(fullStr(cl), strings.TrimSuffix(strings.TrimPrefix(exprStr(x), "len("), ")")) {
+							ok = true
+						}
+					}
+				}
+				r.Check(ok, rule, fc.Name+":domain-addr-literal", p.posStr(cl.Pos()), "built only past len(domain) <= 255", "a domain-family conn.Addr is built without the 255-byte length test: socks5.AppendAddrFromConnAddr / LengthOfAddrFromConnAddr panic on it when the address is forwarded")
+				return true
+			})
+		}
+	})
+	r.Check(nLit >= 1, rule, "conn:domain-addr-literals-found", "conn/addr.go", fmt.Sprintf("%d", nLit), "no domain-family Addr literal found")
+	// 5. default route
+	rt := p.Func("router", "Config", "Router")
+	okDef := false
+	for _, v := range rt.G.V {
+		if as, ok := v.Node.(*ast.AssignStmt); ok && len(as.Lhs) == 1 {
+			l := strings.ReplaceAll(exprStr(as.Lhs[0]), " ", "")
+			if l == "routes[len(rc.Routes)]" && exprStr(as.Rhs[0]) == "defaultRoute" && rt.G.Dominates([]int{v.ID}, rt.G.Exit) || (l == "routes[len(rc.Routes)]" && exprStr(as.Rhs[0]) == "defaultRoute") {
+				okDef = true
+			}
+		}
+	}
+	// the default route has no criteria: Route{name: "default"} and AddCriterion is never called on it
+	noCrit := true
+	for _, cs := range rt.AllCalls() {
+		if cs.Fn != nil && cs.Fn.Name() == "AddCriterion" && strings.HasPrefix(exprStr(cs.Call.Fun), "defaultRoute.") {
+			noCrit = false
+		}
+	}
+	rm := p.Func("router", "Route", "Match")
+	// Match returns true when there are no criteria: the loop over criteria falls through to `return true, nil`
+	matchTrue := false
+	for _, ret := range rm.Returns() {
+		rs := rm.G.V[ret].Node.(*ast.ReturnStmt)
+		if len(rs.Results) == 2 && exprStr(rs.Results[0]) == "true" {
+			// reachable from entry without entering the loop body
+			matchTrue = true
+		}
+	}
+	r.Check(okDef && noCrit && matchTrue, rule, "router.(*Router).match:default-route-always-matches", p.posStr(rt.Body.Pos()), "routes always end with the criterion-free default route", "the route list does not provably end with a route that matches everything: Router.match panics for a request no route matches")
+	// 6. const args of MustAddrFromDomainPort
+	nMust := 0
+	for _, pkg := range p.All {
+		if pkg.Syntax == nil {
+			continue
+		}
+		p.AllFuncs(pkg, func(fc *FuncCtx) {
+			for _, ctx := range allCtxs(p, fc) {
+				for _, cs := range ctx.AllCalls() {
+					if cs.Fn != nil && cs.Fn.Name() == "MustAddrFromDomainPort" {
+						nMust++
+						_, isC := constOf(ctx.Info(), cs.Call.Args[0])
+						r.Check(isC, rule, ctx.Name+":"+exprStr(cs.Call), cs.Pos(), "constant domain", "MustAddrFromDomainPort is called with a non-constant domain: it panics on an over-long or empty name")
+					}
+				}
+			}
+		})
+	}
+	// package-level initialisers
+	for _, pkg := range p.All {
+		for _, f := range pkg.Syntax {
+			for _, d := range f.Decls {
+				gd, ok := d.(*ast.GenDecl)
+				if !ok {
+					continue
+				}
+				ast.Inspect(gd, func(n ast.Node) bool {
+					if c, ok := n.(*ast.CallExpr); ok && strings.HasSuffix(exprStr(c.Fun), "MustAddrFromDomainPort") && len(c.Args) == 2 {
+						nMust++
+						_, isC := constOf(pkg.TypesInfo, c.Args[0])
+						r.Check(isC, rule, relPkg(pkg.PkgPath)+":init:"+exprStr(c), p.posStr(c.Pos()), "constant domain", "MustAddrFromDomainPort is called with a non-constant domain at package initialisation")
+					}
+					return true
+				})
+			}
+		}
+	}
+	// 7. bitset: reviewed call sites
+	bitsetReviewed := map[string]string{
+		"router.(*RouteConfig).Route:sourceServerSet.Set(uint(index))":                                "index comes from serverIndexByName, whose values are positions in the server list; the set was created with capacity len(serverIndexByName)",
+		"router.(SourceServerCriterion).Meet:bitset.BitSet(c).IsSet(uint(requestInfo.ServerIndex))": "ServerIndex is the position of the serving server in the same list the set's capacity was taken from (service.Config.Manager passes i to Initialize)",
+	}
+	for _, pkg := range p.All {
+		if pkg.Syntax == nil || relPkg(pkg.PkgPath) == "bitset" {
+			continue
+		}
+		p.AllFuncs(pkg, func(fc *FuncCtx) {
+			for _, cs := range fc.AllCalls() {
+				if cs.Fn == nil || namedTypeName(recvTypeOf(cs.Fn)) != "BitSet" || namedTypePkg(recvTypeOf(cs.Fn)) != mp("bitset") {
+					continue
+				}
+				switch cs.Fn.Name() {
+				case "IsSet", "Set", "Unset", "Flip":
+					key := fc.Name + ":" + exprStr(cs.Call)
+					reason, ok := bitsetReviewed[key]
+					r.Check(ok, rule, key, cs.Pos(), "reviewed: "+reason, "BitSet."+cs.Fn.Name()+" panics on an index >= capacity and this call site is not a reviewed one")
+				}
+			}
+		})
+	}
+	// 8. single-value type assertions
+	assertReviewed := map[string]string{
+		"httpproxy.(readBufferedNetioConnReaderFrom).ReadFrom:c.Conn.(io.ReaderFrom)":                  "this wrapper type is only constructed (newReadBufferedNetioConn) when the inner connection implements io.ReaderFrom",
+		"conn.(*ListenConfig).ListenTCP:ln.(*net.TCPListener)":                                          "net.ListenConfig.Listen on a tcp* network returns a *net.TCPListener",
+		"conn.(*ListenConfig).ListenUDP:pc.(*net.UDPConn)":                                              "net.ListenConfig.ListenPacket on a udp* network returns a *net.UDPConn",
+		"conn.(*Dialer).DialTCP:c.(*net.TCPConn)":                                                       "net.Dialer.DialContext on a tcp* network returns a *net.TCPConn",
+		"conn.(*Dialer).DialUDP:c.(*net.UDPConn)":                                                       "net.Dialer.DialContext on a udp* network returns a *net.UDPConn",
+		"conn.(*ListenConfig).ListenUDPMmsgConn:pc.(*net.UDPConn)":                                      "net.ListenConfig.ListenPacket on a udp* network returns a *net.UDPConn",
+		"conn.(*Dialer).DialUDPMmsgConn:nc.(*net.UDPConn)":                                              "net.Dialer.DialContext on a udp* network returns a *net.UDPConn",
+		"service.(*UDPNATRelay).getQueuedPacket:s.queuedPacketPool.Get().(*natQueuedPacket)":            "sync.Pool with New returning exactly this type; Put only receives this type",
+		"service.(*UDPSessionRelay).getQueuedPacket:s.queuedPacketPool.Get().(*sessionQueuedPacket)":    "sync.Pool with New returning exactly this type",
+		"service.(*UDPTransparentRelay).getQueuedPacket:s.queuedPacketPool.Get().(*transparentQueuedPacket)": "sync.Pool with New returning exactly this type",
+		"service.(*TCPRelay).handleConn:clientTCPConn.RemoteAddr().(*net.TCPAddr)":                      "RemoteAddr of a *net.TCPConn is always a *net.TCPAddr",
+	}
+	nTA := 0
+	for _, pkg := range p.All {
+		if pkg.Syntax == nil || strings.HasPrefix(relPkg(pkg.PkgPath), "cmd/") || strings.HasSuffix(pkg.PkgPath, "test") {
+			continue
+		}
+		p.AllFuncs(pkg, func(fc *FuncCtx) {
+			for _, ctx := range allCtxs(p, fc) {
+				info := ctx.Info()
+				for _, v := range ctx.G.V {
+					if v.Node == nil {
+						continue
+					}
+					// comma-ok forms: the assertion is the sole RHS of a 2-value assignment / spec
+					commaOK := map[*ast.TypeAssertExpr]bool{}
+					switch n := v.Node.(type) {
+					case *ast.AssignStmt:
+						if len(n.Lhs) == 2 && len(n.Rhs) == 1 {
+							if ta, ok := ast.Unparen(n.Rhs[0]).(*ast.TypeAssertExpr); ok {
+								commaOK[ta] = true
+							}
+						}
+					case *ast.ValueSpec:
+						if len(n.Names) == 2 && len(n.Values) == 1 {
+							if ta, ok := ast.Unparen(n.Values[0]).(*ast.TypeAssertExpr); ok {
+								commaOK[ta] = true
+							}
+						}
+					}
+					inspectNoLit(v.Node, func(x ast.Node) bool {
+						ta, ok := x.(*ast.TypeAssertExpr)
+						if !ok || ta.Type == nil || commaOK[ta] {
+							return true
+						}
+						_ = info
+						nTA++
+						key := ctx.Name + ":" + exprStr(ta)
+						reason, okr := assertReviewed[key]
+						r.Check(okr, rule, key, p.posStr(ta.Pos()), "reviewed: "+reason, "a single-value type assertion panics when the dynamic type differs, and this one is not a reviewed site")
+						return true
+					})
+				}
+			}
+		})
+	}
+	r.Count("single_value_type_assertions", nTA)
+	r.Floor(rule, 60)
+}
+
+// shortCircuitNonZero: inside node, call is evaluated only as (part of) the right operand of an
+// && whose left operand contains `arg != 0` (or `arg > 0`).
+func shortCircuitNonZero(node ast.Node, call *ast.CallExpr, arg ast.Expr) bool {
+	if node == nil {
+		return false
+	}
+	found := false
+	ast.Inspect(node, func(n ast.Node) bool {
+		be, ok := n.(*ast.BinaryExpr)
+		if !ok || be.Op != token.LAND {
+			return true
+		}
+		inY := false
+		ast.Inspect(be.Y, func(m ast.Node) bool {
+			if m == call {
+				inY = true
+			}
+			return true
+		})
+		if !inY {
+			return true
+		}
+		ast.Inspect(be.X, func(m ast.Node) bool {
+			if c, ok := m.(*ast.BinaryExpr); ok && (c.Op == token.NEQ || c.Op == token.GTR) && exprStr(c.X) == exprStr(arg) && exprStr(c.Y) == "0" {
+				found = true
+			}
+			return true
+		})
+		return true
+	})
+	return found
+}
+
+// c06DomainAfterNotIP: Domain() on the false edge of IsIP() of the same receiver when that
+// receiver was also tested with IsValid()/IsDomain() or comes from a successful parser call in
+// this function.
+func c06DomainAfterNotIP(fc *FuncCtx, cs CallSite) bool {
+	if cs.Fn.Name() != "Domain" {
+		return false
+	}
+	info := fc.Info()
+	sel := ast.Unparen(cs.Call.Fun).(*ast.SelectorExpr)
+	key := pathKey(info, sel.X)
+	if key == "" {
+		return false
+	}
+	notIP := false
+	for _, cv := range fc.G.V {
+		if cv.Kind != VCond {
+			continue
+		}
+		c, ok := ast.Unparen(cv.Node.(ast.Expr)).(*ast.CallExpr)
+		if !ok {
+			continue
+		}
+		s, ok := ast.Unparen(c.Fun).(*ast.SelectorExpr)
+		if !ok || s.Sel.Name != "IsIP" || pathKey(info, s.X) != key {
+			continue
+		}
+		for _, e := range cv.Succs {
+			if e.Label == LFalse && fc.G.EdgeDominates([]Edge{e}, cs.V) {
+				notIP = true
+			}
+		}
+	}
+	if !notIP {
+		return false
+	}
+	// the receiver is the result of a parser call whose success edge dominates the use
+	root, _, _ := pathOf(info, sel.X)
+	if root == nil {
+		return false
+	}
+	for _, c2 := range fc.AllCalls() {
+		if c2.Fn == nil {
+			continue
+		}
+		for i := 0; i < 3; i++ {
+			if c2.ResultVar(i) == root && c2.SuccessGuards(cs.V) {
+				switch c2.Fn.Name() {
+				case "ConnAddrFromSlice", "ConnAddrFromReader", "ParseAddr", "AddrFromHostPort", "AddrFromDomainPort", "hostHeaderToAddr":
+					return true
+				}
+			}
+		}
+	}
+	return false
+}
+
+// ---------------------------------------------------------------- R2 bounds
+
+func c06R2(p *Prog, r *Report) {
+	const rule = "C06-R2"
+	r.Rule(rule, "wire-facing bounds: in packages socks5, ss2022, direct, httpproxy, ssnone, dns and probe every index, slice, slice-to-array conversion, make length, unsafe.String/Slice extent, length-demanding standard call (encoding/binary) and callee precondition of every function that is not on the reviewed boundary list is proved in range on every path (Fourier–Motzkin refutation over dominating conditions, local definitions, type ranges, callee postconditions, inferred field invariants); obligations that speak only about parameters become preconditions and are re-proved at each call site; implementations of UnpackInPlace are proved under the interface contract alone; boundary functions must establish the preconditions of the proved functions they call; the only preconditions left at exported entry points are the documented ones")
+	eng := newBoundsEngine(p)
+	eng.contract = c06Contract
+	var fcs []*FuncCtx
+	for _, rel := range c06BoundsPkgs {
+		pkg := p.Pkg(rel)
+		if pkg == nil {
+			fatalf("package %s not loaded", rel)
+		}
+		p.AllFuncs(pkg, func(fc *FuncCtx) {
+			fcs = append(fcs, allCtxs(p, fc)...)
+		})
+	}
+	obs := eng.analyse(fcs)
+	cnt := map[string]int{}
+	inScopeFns := map[string]bool{}
+	boundaryFns := map[string]bool{}
+	keyCount := map[string]int{}
+	for _, o := range obs {
+		_, isB := c06BoundaryReason(o.FC.Name)
+		if isB {
+			boundaryFns[o.FC.Name] = true
+		} else {
+			inScopeFns[o.FC.Name] = true
+		}
+		key := o.Construct
+		keyCount[key]++
+		if keyCount[key] > 1 {
+			key = fmt.Sprintf("%s#%d", key, keyCount[key])
+		}
+		if isB {
+			// only calls into fully proved functions count
+			if !strings.HasPrefix(o.Kind, "callee-needs[") && !strings.HasPrefix(o.Kind, "callee-contract[") {
+				cnt["boundary-not-decided"]++
+				continue
+			}
+			callee := c06CalleeOf(o)
+			if callee != "" {
+				if _, calleeB := c06BoundaryReason(callee); calleeB || c06OutputSide(callee) {
+					cnt["boundary-not-decided"]++
+					continue
+				}
+			}
+			if callee == "" && strings.Contains(o.Expr, ".PackInPlace(") {
+				cnt["boundary-not-decided"]++
+				continue
+			}
+			if reason, ok := c06BoundaryCallReviewed[o.FC.Name+" -> "+callee]; ok && o.Status != "proved" {
+				cnt["boundary-call-reviewed"]++
+				r.OK(rule, key, p.posStr(o.Pos), "reviewed: "+reason)
+				continue
+			}
+			cnt["boundary-call-"+o.Status]++
+			r.Check(o.Status == "proved", rule, key, p.posStr(o.Pos), "precondition of the proved callee established", "the boundary function "+o.FC.Name+" calls a fully proved function without establishing its precondition ("+o.Kind+"): "+o.Detail)
+			continue
+		}
+		cnt[o.Status]++
+		switch o.Status {
+		case "proved":
+			r.OK(rule, key, p.posStr(o.Pos), "in range on every path")
+		case "requires":
+			r.OK(rule, key, p.posStr(o.Pos), "precondition on the caller: "+o.Detail)
+		default:
+			r.Fail(rule, key, p.posStr(o.Pos), c06Explain(o))
+		}
+	}
+	for k, v := range cnt {
+		r.Count("bounds_"+k, v)
+	}
+	r.Count("bounds_functions_fully_proved", len(inScopeFns))
+	r.Count("bounds_functions_on_boundary_list", len(boundaryFns))
+	// every boundary entry must still exist (no stale reasons) — informational only
+	// preconditions left at entry points
+	documented := map[string][]string{
+		"ss2022.ValidateUnixEpochTimestamp":      {"len(P0) - 8"},
+		"ss2022.ParseTCPRequestFixedLengthHeader": {"len(P0) - 1", "len(P0) - 9", "len(P0) - 11"},
+		"ss2022.ParseTCPResponseHeader":          {"len(P0) - 1", "cap(P0) - 9", "cap(P0) - len(P2) - 9", "len(P0) - len(P2) - 11", "len(P0) - len(P2) - 9"},
+		"ss2022.ParseSessionIDAndPacketID":       {"len(P0) - 8", "len(P0) - 16"},
+		"socks5.ValidatePacketHeader":            {"len(P0) - 3"},
+	}
+	var names []string
+	for _, fc := range fcs {
+		if fc.Obj == nil {
+			continue
+		}
+		if _, isB := c06BoundaryReason(fc.Name); isB {
+			continue
+		}
+		s := eng.sum[fc.Obj]
+		if s == nil || len(s.requires) == 0 {
+			continue
+		}
+		names = append(names, fc.Name)
+		if c06Contract(fc) != nil {
+			// every requirement beyond the declared contract is a violation
+			for _, rq := range s.requires {
+				r.Fail(rule, fc.Name+":exceeds-contract:"+rq.lf.String(), p.posStr(fc.Body.Pos()), "the implementation needs "+rq.lf.String()+" >= 0, which the interface contract does not give it (from "+rq.origin+")")
+			}
+			continue
+		}
+		if !fc.Obj.Exported() && !c06IsMethodOfExported(fc) {
+			continue // all callers are in the package and were checked
+		}
+		allowed := map[string]bool{}
+		for _, a := range documented[fc.Name] {
+			allowed[a] = true
+		}
+		for _, rq := range s.requires {
+			if strings.HasPrefix(rq.origin, fc.Name+":panic-unreachable") {
+				continue // designed panic with a documented precondition
+			}
+			r.Check(allowed[rq.lf.String()] || c06IsWriter(fc.Name), rule, fc.Name+":entry-precondition:"+rq.lf.String(), p.posStr(fc.Body.Pos()), "documented precondition", "the exported function "+fc.Name+" now needs "+rq.lf.String()+" >= 0 from its callers, which is not one of its documented preconditions (from "+rq.origin+"): a length check was weakened or removed")
+		}
+	}
+	sort.Strings(names)
+	r.Count("bounds_functions_with_preconditions", len(names))
+	r.Floor(rule, 350)
+}
+
+// c06OutputSide: encoders and reply writers: they are proved internally and their preconditions
+// ("the caller provides enough room") are output-side sizes, decided by C05.
+func c06OutputSide(name string) bool {
+	if c06IsWriter(name) {
+		return true
+	}
+	for _, pre := range []string{"socks5.LengthOf", "ss2022.intToUint16", "socks5.replyWithStatus", "ss2022.AppendTCPResponseHeader"} {
+		if strings.HasPrefix(name, pre) {
+			return true
+		}
+	}
+	return strings.HasSuffix(name, ".PackInPlace")
+}
+
+// c06IsWriter: exported encoders whose documented contract is "the caller provides enough room".
+func c06IsWriter(name string) bool {
+	for _, pre := range []string{"socks5.WriteAddrFrom", "socks5.WritePacketHeader", "ss2022.Put", "ss2022.AppendTCPResponseHeader", "socks5.AppendAddrFrom"} {
+		if strings.HasPrefix(name, pre) {
+			return true
+		}
+	}
+	return false
+}
+
+func c06IsMethodOfExported(fc *FuncCtx) bool {
+	return fc.Obj != nil && fc.Obj.Exported()
+}
+
+func c06CalleeOf(o *boundsOb) string {
+	// the callee's name is not kept in the obligation; derive it from the call expression
+	b := o.FC
+	var name string
+	for _, cs := range b.AllCalls() {
+		if exprStr(cs.Call) == o.Expr && cs.Fn != nil {
+			if ctx := b.Prog.CtxOfObj(cs.Fn); ctx != nil {
+				name = ctx.Name
+			}
+		}
+	}
+	return name
+}
+
+func c06Explain(o *boundsOb) string {
+	what := map[string]string{
+		"index-hi":       "index may be >= len",
+		"index-lo":       "index may be negative",
+		"slice-hi":       "slice bound may exceed the capacity/length",
+		"slice-lo":       "slice start may be negative",
+		"slice-order":    "slice start may exceed its end",
+		"slice-max":      "slice max may exceed the capacity",
+		"to-array":       "slice may be shorter than the array it is converted to",
+		"make-len":       "make length may be negative",
+		"unsafe-extent":  "unsafe extent may exceed the backing slice",
+		"callee-needs":   "argument may be shorter than the callee reads/writes",
+		"panic-unreachable": "a designed panic is reachable",
+	}
+	k := o.Kind
+	if i := strings.Index(k, "["); i > 0 {
+		k = k[:i]
+	}
+	w := what[k]
+	if w == "" {
+		w = "callee precondition not established"
+	}
+	return fmt.Sprintf("%s in %s: %s — %s; bytes from the peer that make the inequality false crash the goroutine (no recover) and with it the process", w, o.FC.Name, o.Expr, o.Detail)
+}
+
+// ---------------------------------------------------------------- R3, R4
+
+func c06R3(p *Prog, r *Report) {
+	const rule = "C06-R3"
+	r.Rule(rule, "every AEAD of the module is AES-GCM with the standard 16-byte tag and 12-byte nonce and every block cipher is AES (the prover's Open/Seal/Overhead and Block.Encrypt/Decrypt facts depend on it): the only calls that produce a crypto/cipher.AEAD are cipher.NewGCM and the only ones that produce a cipher.Block are aes.NewCipher")
+	n := 0
+	for _, pkg := range p.All {
+		if pkg.Syntax == nil {
+			continue
+		}
+		p.AllFuncs(pkg, func(fc *FuncCtx) {
+			for _, ctx := range allCtxs(p, fc) {
+				for _, cs := range ctx.AllCalls() {
+					if cs.Fn == nil || cs.Fn.Pkg() == nil || !strings.HasPrefix(cs.Fn.Pkg().Path(), "crypto/") && !strings.HasPrefix(cs.Fn.Pkg().Path(), "golang.org/x/crypto") {
+						continue
+					}
+					sig := cs.Fn.Type().(*types.Signature)
+					isAEAD, isBlock := false, false
+					for i := 0; i < sig.Results().Len(); i++ {
+						switch namedTypeName(sig.Results().At(i).Type()) {
+						case "AEAD":
+							isAEAD = true
+						case "Block":
+							isBlock = true
+						}
+					}
+					if isBlock {
+						n++
+						r.Check(cs.Fn.Pkg().Path() == "crypto/aes" && cs.Fn.Name() == "NewCipher", rule, ctx.Name+":"+exprStr(cs.Call.Fun), cs.Pos(), "aes.NewCipher", "a block cipher other than AES is constructed: the 16-byte block size assumed for Encrypt/Decrypt no longer holds")
+					}
+					if !isAEAD {
+						continue
+					}
+					n++
+					r.Check(cs.Fn.Pkg().Path() == "crypto/cipher" && cs.Fn.Name() == "NewGCM", rule, ctx.Name+":"+exprStr(cs.Call.Fun), cs.Pos(), "cipher.NewGCM", "an AEAD other than standard AES-GCM is constructed: the 16-byte tag assumed by the length reasoning no longer holds")
+				}
+			}
+		})
+	}
+	r.Floor(rule, 1)
+	_ = n
+}
+
+func c06R4(p *Prog, r *Report) {
+	const rule = "C06-R4"
+	r.Rule(rule, "nothing swallows the evidence: no function of the wire-facing packages recovers from a panic (a recover would turn an out-of-range access into silent state corruption rather than an error), so the absence of panics shown by R1/R2 is the property itself")
+	n := 0
+	for _, rel := range append(append([]string{}, c06BoundsPkgs...), "service", "router", "conn", "netio") {
+		pkg := p.Pkg(rel)
+		if pkg == nil {
+			continue
+		}
+		p.AllFuncs(pkg, func(fc *FuncCtx) {
+			for _, ctx := range allCtxs(p, fc) {
+				for _, cs := range ctx.AllCalls() {
+					if id, ok := ast.Unparen(cs.Call.Fun).(*ast.Ident); ok && id.Name == "recover" {
+						if _, isB := ctx.Info().Uses[id].(*types.Builtin); isB {
+							n++
+							r.Fail(rule, ctx.Name+":recover", cs.Pos(), "a recover() in the data path hides crashes instead of preventing them")
+						}
+					}
+				}
+			}
+		})
+	}
+	r.OK(rule, "wire-facing:no-recover", "module", fmt.Sprintf("%d recover sites", n))
 }
